@@ -26,6 +26,13 @@ func main() {
 			selfBinRace = cand
 		}
 	}
+	selfBinAsan = os.Getenv("RV_BIN_ASAN")
+	if selfBinAsan == "" {
+		cand := filepath.Join(filepath.Dir(selfBin), "rv-asan")
+		if _, err := os.Stat(cand); err == nil {
+			selfBinAsan = cand
+		}
+	}
 	switch os.Args[1] {
 	case "node":
 		vnodeMain(os.Args[2])
